@@ -24,7 +24,9 @@ func init() {
 			runC18(c)
 			runC18VarKinds(c)
 			runFieldIdentity(c, "C18-FIELDID")
-			base(c, "DECLARED", "STATE", "ALIAS", "TEXT")
+			runFacadeForward(c, "C18-FORWARD")
+			base(c, "DECLARED", "STATE", "ALIAS", "TEXT", "RULESRC", "EXPORT", "ZEROSKIP")
+			importRules(c, "C03", runC03, "C18-REQUIRED", "the built-in required has the same notion of 'missing' in every walker: a clause exactly when the value is zero or an empty collection (rule C03-REQ) — a walker that also treats e.g. blank strings as missing disagrees with its siblings on the same scalar", 4, ruleIn("C03-REQ"))
 			importRules(c, "C02", runC02Loop, "C18-LOOP", "every walker evaluates every rule item of a field: its rule loop leaves only through its header (rule C02-LOOP) — a walker that stops early at some item disagrees with its siblings on the rules after it", 4, nil)
 		},
 	})
@@ -39,8 +41,9 @@ func init() {
 			runC16(c)
 			runC16More(c)
 			runC16Delegate(c)
+			runSetFnStore(c, "C16-SETFN")
 			sharedDeclaredRules(c)
-			base(c, "STATE", "LOOP", "TEXT")
+			base(c, "STATE", "LOOP", "TEXT", "EXPORT", "FACADE")
 		},
 	})
 }
